@@ -70,13 +70,13 @@ class C02(Prop):
                 continue
             if b == "PANIC":
                 return {"kind": "panic", "event": k, "detail": "implementation panicked"}
-            if b.startswith("o=") and b.split(" ")[0] != "o=":
+            if b.startswith("o=") and not (b == "o=" or b.startswith("o= ")):
                 return {"kind": "delivery-after-unsubscribe", "event": k, "detail": b}
         return None
 
     def nontrivial(self, case, lines):
         cut = self._cut(case)
-        return any(lines.get(k, "o=").split(" ")[0] not in ("o=",) for k in range(cut))
+        return any(not (lines.get(k, "o=") == "o=" or lines.get(k, "o=").startswith("o= ")) for k in range(cut))
 
     def shrink_candidates(self, case):
         cands = tg.time_shrink(case) if case.suite == "time" else super().shrink_candidates(case)
